@@ -10,45 +10,11 @@
 (* the standard's; UNDECIDED = it differs on a run that went through the   *)
 (* 2025 select rules, which L0 transcribes with low confidence.            *)
 (***************************************************************************)
-EXTENDS HtmlTreeRules, TLC, Json, IOUtils
+EXTENDS TreeCanon, TLC, Json, IOUtils
 
 Rec == ndJsonDeserialize(IOEnv.TRACE)
 VARIABLES l
 Init == l = 1
-
-\* canonical form with the duplicate-attribute flag
-RECURSIVE WithDup(_)
-WithDup(x) == IF x.k = "el" THEN [k |-> "el", ns |-> x.ns, local |-> x.local, attrs |-> x.attrs,
-                                  ch |-> [i \in DOMAIN x.ch |-> WithDup(x.ch[i])],
-                                  tmpl |-> IF x.tmpl = <<>> THEN <<>> ELSE <<[i \in DOMAIN x.tmpl[1] |-> WithDup(x.tmpl[1][i])]>>,
-                                  dup |-> FALSE]
-              ELSE x
-RECURSIVE CanonChD(_, _)
-CanonD(nodes, id) ==
-    LET n == N(nodes, id) IN
-    CASE n.k = "el" -> [k |-> "el", ns |-> n.ns, local |-> n.local, attrs |-> n.attrs, ch |-> CanonChD(nodes, n.ch),
-                        tmpl |-> IF n.tmpl = -1 THEN <<>> ELSE <<CanonChD(nodes, N(nodes, n.tmpl).ch)>>, dup |-> n.s # <<>>]
-      [] n.k = "comment" -> [k |-> "comment", s |-> n.s]
-      [] n.k = "doc" -> [k |-> "doc", ch |-> CanonChD(nodes, n.ch)]
-      [] OTHER -> [k |-> n.k]
-CanonChD(nodes, ch) ==
-    [i \in DOMAIN ch |->
-        CASE ch[i].t = "n" -> CanonD(nodes, ch[i].id)
-          [] ch[i].t = "t" -> [k |-> "text", s |-> ch[i].s]
-          [] ch[i].t = "v" -> WithDup(ch[i].tree)          \* a clone made by the sink: no token, flag clear
-          [] OTHER -> [k |-> "doctype", name |-> ch[i].name, pub |-> ch[i].pub, sys |-> ch[i].sys]]
-
-AttrRecs(a) == [i \in DOMAIN a |-> [ns |-> a[i].ns, prefix |-> a[i].prefix, local |-> a[i].local, v |-> a[i].v]]
-
-Start(cfg) ==
-    IF cfg.mode = "frag"
-    THEN LET f == FragmentInit(cfg.scripting, cfg.iquirks, [ns |-> cfg.ctx.ns, local |-> cfg.ctx.local,
-                                       attrs |-> [i \in DOMAIN cfg.ctx.attrs |-> [ns |-> cfg.ctx.attrs[i].ns, prefix |-> <<>>,
-                                                                                local |-> cfg.ctx.attrs[i].local, v |-> cfg.ctx.attrs[i].v]]]) IN
-         IF cfg.form_owner
-         THEN [f EXCEPT !.nodes = Append(@, MkNode("el", "html", N_form, <<>>, <<>>, <<>>)), !.form = Len(f.nodes)]
-         ELSE f
-    ELSE TbInit(cfg.scripting, cfg.srcdoc, cfg.iquirks)
 
 \* tokenizer start state for a fragment's context element (13.4 step 4)
 StartState(cfg) ==
@@ -72,8 +38,6 @@ Fold(st, toks, i) ==
          THEN Fold([st EXCEPT !.bad = IF @ = "" /\ tk.ans # CdataAnswer(st.t) THEN "cdata-question" ELSE @], toks, i + 1)
          ELSE LET t1 == ProcToken(st.t, tk) IN
               Fold([t |-> t1, bad |-> IF st.bad = "" /\ ReplyKind(toks[i].r) # t1.ts THEN "tokenizer-state" ELSE st.bad], toks, i + 1)
-
-DropDoctype(doc) == [doc EXCEPT !.ch = SelectSeq(@, LAMBDA x : x.k # "doctype")]
 
 Judge(e) ==
     IF e.panic # <<>> THEN [why |-> "panic", low |-> FALSE]
